@@ -45,6 +45,14 @@ def run(ctx):
                 if b and n != H and any("shutdown" in proj_fields(p) for _, p, how in all_places(b)) and "client::Client" in n:
                     bad.append(n)
             r1.check(not bad, "helpers-blind", "no helper reachable from the transaction loop touches Client.shutdown", "helpers that touch the shutdown receiver: %s" % bad)
+            # `an admin client keeps reading`: ... the message it was sending. The wait for the broadcast shares a select! with read_message, which is not
+            # cancel-safe: the branch that wins must not read the same socket again (D85, known finding: the admin branch starts a fresh read_message)
+            from common import select_cancelled_read_findings
+            scr = select_cancelled_read_findings(F)
+            if scr is None:
+                r1.ok("select-cancelled-read=>gone", "read_message is not a branch of any select! in Client::handle (nothing cancels it but the deadlines of C03-R8)")
+            for key_, ok_, good_, bad_, where_ in scr or []:
+                r1.check(ok_, key_, good_, bad_, where_)
             # `transaction-mode clients idle between transactions are disconnected`: such a client is in the idle loop, where the broadcast is heard - the transaction
             # loop is left as soon as a request is complete outside a transaction, also when pgcat answered it itself (D83)
             crr = completed_request_release_findings(F)
